@@ -130,6 +130,14 @@ func PyDiff(prog string, o PyDiffOpts) (*Diff, error) {
 		paths = []string{o.Path}
 	}
 	g := RunProgram(prog, RunOpts{Vars: o.Vars, SysPaths: paths, SysArgs: o.Argv, Timeout: o.Timeout, Setup: o.Setup})
+	if g.Timeout {
+		// a busy machine is not a hang: believe it only after a second run with twelve times the limit
+		limit := o.Timeout
+		if limit == 0 {
+			limit = 10 * time.Second
+		}
+		g = RunProgram(prog, RunOpts{Vars: o.Vars, SysPaths: paths, SysArgs: o.Argv, Timeout: 12 * limit, Setup: o.Setup})
+	}
 	var resp *OracleResp
 	if o.Argv != nil {
 		resp, err = orc.RunArgv(prog, o.Vars, o.Path, o.Argv)
